@@ -128,6 +128,24 @@ func (un *Unit) execCall(fr *Frame, st *State, c *ssa.CallCommon, instr ssa.Inst
 	if cl, ok := un.closures[fv.t]; ok && cl.fn != nil {
 		return un.callStatic(fr, st, cl.fn, cl.binds, args, argTypes(c), pos)
 	}
+	// a function-typed parameter of an enclosing (inlining) frame that has a funcspec: same function value
+	for f := fr.parent; f != nil; f = f.parent {
+		if f.contract == nil {
+			continue
+		}
+		for _, p := range f.fn.Params {
+			fsName, has := f.contract.Params[p.Name()]
+			if !has || f.env[p].t != fv.t {
+				continue
+			}
+			if fs := un.specs.FuncSpecs[fsName]; fs != nil {
+				un.safety(st, fr, "nil-func", p.Name(), not(eq(fv.t, "0")), pos)
+				names := append([]string{"this"}, sigNames(sig, fs)...)
+				all := append([]Val{{t: fv.t, typ: sig}}, args...)
+				return un.applyContract(fr, st, fs, names, sig, all, p.Name(), pos)
+			}
+		}
+	}
 	// function-typed parameter with a funcspec
 	if p, ok := c.Value.(*ssa.Parameter); ok && fr.contract != nil {
 		if fsName, ok := fr.contract.Params[p.Name()]; ok {
@@ -181,6 +199,13 @@ func ifaceMethodKey(recvT types.Type, m *types.Func) (string, string) {
 }
 
 func (un *Unit) lookupIface(recvT types.Type, m *types.Func) (*FuncContract, string, string) {
+	// an instantiation-specific contract first: pkg.Iface[args].Method
+	if n, ok := types.Unalias(recvT).(*types.Named); ok && n.TypeArgs() != nil && n.TypeArgs().Len() > 0 && n.Obj().Pkg() != nil {
+		k := typeName(n) + "." + m.Name()
+		if fc, ok := un.specs.Ifaces[k]; ok {
+			return fc, k, n.Obj().Pkg().Path()
+		}
+	}
 	key, path := ifaceMethodKey(recvT, m)
 	if fc, ok := un.specs.Ifaces[key]; ok {
 		return fc, key, path
@@ -627,6 +652,8 @@ func (un *Unit) modelCall(fr *Frame, st *State, callee *ssa.Function, full strin
 			mode = "1"
 		}
 		un.storePlace(st, p, mode)
+		hl := un.comp("G_heldlocks", "Int", "ghost")
+		un.set(st, hl, "(+ "+un.get(st, hl)+" 1)")
 		un.onAcquire(fr, st, p, pos)
 		return unit, true
 	case "(*sync.RWMutex).Unlock", "(*sync.Mutex).Unlock", "(*sync.RWMutex).RUnlock":
@@ -640,6 +667,8 @@ func (un *Unit) modelCall(fr *Frame, st *State, callee *ssa.Function, full strin
 		un.lockObl(fr, st, "unlock-held", "lock held in the mode being released", eq(cur, mode), pos)
 		un.onRelease(fr, st, p, pos)
 		un.storePlace(st, p, "0")
+		hl := un.comp("G_heldlocks", "Int", "ghost")
+		un.set(st, hl, "(- "+un.get(st, hl)+" 1)")
 		return unit, true
 	case "(*sync.Cond).Wait":
 		// releases and re-acquires the associated lock: invariant out, havoc, invariant in
